@@ -165,6 +165,8 @@ def task_reuse(kinds):
             try:
                 r1, f1, r2, f2 = drv_reuse(kinds, ks, ks2, ORDERS[oname], preserve)
             except Exception as ex:  # noqa
+                from pysym.harness import guard_repo_exception
+                guard_repo_exception(ex)
                 return {"input": [kinds, ks, oname, preserve], "observed": f"raised {type(ex).__name__}: {ex}", "expected": "sorted libraries"}
             if r1 == f1 and r2 == f2:
                 return None
@@ -206,6 +208,8 @@ def replay(kinds, keys, oname, preserve, remove_idx=None):
     try:
         res = drv(kinds, keys, ORDERS[oname], preserve, remove_idx)
     except Exception as ex:  # noqa
+        from pysym.harness import guard_repo_exception
+        guard_repo_exception(ex)
         return {"input": [kinds, keys, oname, preserve], "observed": f"raised {type(ex).__name__}: {ex}", "expected": "sorted library"}
     if all(bool(c) for c in verdict(res, lambda a, b: a == b)):
         return None
